@@ -146,7 +146,7 @@ def ollaLoop {α : Type} (v : Variant) (T : Int) (streaming : Bool) (ab : Option
 
 /-- THE SWITCH. `.pinned` while /repo has no stall watchdog in olla's streamResponse; flip to `.fixed`
     when fixes/C18-olla-stall.patch (or an equivalent) is applied. Only the driver depends on it. -/
-def active : Variant := .pinned
+def active : Variant := .fixed
 
 /-! ### Production wiring of the profile -/
 
@@ -158,7 +158,7 @@ def wiredProfile (v : Variant) (configured : String) : String :=
   | .fixed => configured
 
 /-- Second switch (see fixes/NOTES-C18.md): flip when createProxyConfiguration passes the profile on. -/
-def activeWiring : Variant := .pinned
+def activeWiring : Variant := .fixed
 
 /-! ### Stream-or-buffer decision: the regenerated table of core.AutoDetectStreamingMode -/
 
